@@ -68,7 +68,7 @@ func gen(rng *rand.Rand, w *vh.World, repo string, n int) tcase {
 		return tc // plain push (valid or with missing references, depending on the repository state)
 	}
 	// a mutation on top
-	switch k := rng.Intn(13); k {
+	switch k := rng.Intn(14); k {
 	case 0: // truncated body, addressed by tag or by the digest of the truncated bytes
 		cut := 1 + rng.Intn(len(mm.Raw)-1)
 		tc.body = mm.Raw[:cut]
@@ -160,6 +160,20 @@ func gen(rng *rand.Rand, w *vh.World, repo string, n int) tcase {
 			tc.ref = vh.DigestOf("sha256", b)
 		}
 		tc.query = ""
+	case 13: // digest reference that is not the digest of the body, with a ?digest= parameter that is
+		o := u.Mans[rng.Intn(len(u.Mans))]
+		if o.D == mm.D {
+			return tc
+		}
+		tc.ref, tc.tag = o.D, ""
+		if rng.Intn(3) == 0 {
+			tc.ref = vh.DigestOf("sha256", []byte(fmt.Sprint("nothing", n)))
+		}
+		tc.query = "digest=" + url.QueryEscape(mm.D)
+		if rng.Intn(3) == 0 {
+			tc.query = "digest=" + url.QueryEscape(vh.DigestOf("sha512", mm.Raw))
+		}
+		tc.class, tc.must = "digest-reference-mismatch-with-matching-parameter", -1
 	case 12: // a complete manifest followed by more bytes: the body as a whole does not parse
 		tail := []string{"garbage", "{}", "\n]", " x", "\x00", "}"}[rng.Intn(6)]
 		tc.body = append(append([]byte{}, mm.Raw...), []byte(tail)...)
